@@ -90,6 +90,8 @@ class World:
         k = spec.get('k', 'file')
         try:
             self._mkparents(p)
+            if k == 'dir' and os.path.isdir(p) and not os.path.islink(p):
+                return True
             if os.path.lexists(p):
                 self.remove(spec['p'], root=root)
             if k == 'dir':
